@@ -751,6 +751,141 @@ func transportScenario(r *rec, rng *rand.Rand, idx int) {
 	}
 }
 
+// ---------------------------------------------------------------- the client transport as receiver
+// The raw-frame peer answers a GET with a body in DATA frames (some padded); the application behind the Transport reads it all, or
+// reads a little and closes the body.  Every byte the peer sent must come back as connection-level credit - consumed or discarded -
+// never more than was sent, and all but a batching remainder once things are quiet.
+func transportRecvScenario(r *rec, rng *rand.Rand, idx int) {
+	r.ev(map[string]any{"op": "reset", "scenario": fmt.Sprintf("trecv-%d", idx)})
+	ln, err := net.Listen("tcp", "127.0.0.1:0")
+	if err != nil {
+		r.notes = append(r.notes, "listen: "+err.Error())
+		return
+	}
+	defer ln.Close()
+	tr := &fphttp2.Transport{AllowHTTP: true, DialTLSContext: func(ctx context.Context, network, addr string, _ *tls.Config) (net.Conn, error) {
+		return net.Dial(network, addr)
+	}}
+	defer tr.CloseIdleConnections()
+	total := []int{1, 5000, 70000, 200000}[rng.Intn(4)]
+	early := rng.Intn(2) == 0 // read a little, then close the body
+	keep := []int{0, 1, 3000}[rng.Intn(3)]
+	done := make(chan error, 1)
+	go func() {
+		req, _ := http.NewRequest("GET", "http://"+ln.Addr().String()+"/r", nil)
+		resp, err := tr.RoundTrip(req)
+		if err == nil {
+			if early {
+				io.CopyN(io.Discard, resp.Body, int64(keep))
+			} else {
+				io.Copy(io.Discard, resp.Body)
+			}
+			resp.Body.Close()
+		}
+		done <- err
+	}()
+	ln.(*net.TCPListener).SetDeadline(time.Now().Add(5 * time.Second))
+	conn, err := ln.Accept()
+	if err != nil {
+		r.notes = append(r.notes, "transport never connected: "+err.Error())
+		return
+	}
+	defer conn.Close()
+	conn.SetDeadline(time.Now().Add(40 * time.Second))
+	pre := make([]byte, len(h2raw.Preface))
+	if _, err := io.ReadFull(conn, pre); err != nil || string(pre) != h2raw.Preface {
+		r.notes = append(r.notes, "no client preface from the transport")
+		return
+	}
+	hc := h2raw.NewConn(conn)
+	hc.AutoWU = false
+	conn.Write(h2raw.Settings())
+	gone := false // the transport reset the stream
+	logR := func(f h2raw.RFrame) {
+		switch f.Type {
+		case h2raw.TWindowUpdate:
+			r.ev(map[string]any{"op": "srv_wu", "s": f.Stream, "n": f.U32(0) & 0x7fffffff})
+		case h2raw.TRSTStream:
+			gone = true
+			r.ev(map[string]any{"op": "rst", "s": f.Stream, "code": codeName[f.U32(0)]})
+		case h2raw.TGoAway:
+			r.ev(map[string]any{"op": "goaway", "code": codeName[f.U32(4)]})
+		}
+	}
+	pn := byte(0)
+	barrier := func() error {
+		pn++
+		conn.Write(h2raw.Ping(false, [8]byte{0xfb, pn}))
+		for {
+			f, err := hc.Step()
+			if err != nil {
+				return err
+			}
+			logR(f)
+			if f.Type == h2raw.TPing && f.Flags&h2raw.FAck != 0 && len(f.Payload) == 8 && f.Payload[0] == 0xfb && f.Payload[1] == pn {
+				return nil
+			}
+		}
+	}
+	// wait for the request
+	for i := 0; i < 100 && hc.Resp[1] == nil; i++ {
+		if err := barrier(); err != nil {
+			r.notes = append(r.notes, fmt.Sprintf("trecv-%d: %v", idx, err))
+			return
+		}
+	}
+	if hc.Resp[1] == nil {
+		r.notes = append(r.notes, fmt.Sprintf("trecv-%d: no request arrived", idx))
+		return
+	}
+	r.ev(map[string]any{"op": "open", "s": 1, "body": 0, "adv": 4194304})
+	conn.Write(h2raw.Headers(1, false, h2raw.Block([]h2raw.HF{{":status", "200"}}), nil, 0))
+	left := total
+	afterReset := 0
+	for left > 0 {
+		n := []int{1, 100, 4000, 16000}[rng.Intn(4)]
+		if n > left {
+			n = left
+		}
+		pad := -1
+		if rng.Intn(4) == 0 {
+			pad = rng.Intn(200)
+		}
+		left -= n
+		fr := h2raw.Data(1, left == 0, make([]byte, n), pad)
+		conn.Write(fr)
+		r.ev(map[string]any{"op": "up_data", "s": 1, "n": len(fr) - 9, "overrun": false})
+		if gone {
+			afterReset++
+			if afterReset >= 3 { // what was "in flight" when the reset arrived
+				break
+			}
+		}
+		if rng.Intn(4) == 0 {
+			if err := barrier(); err != nil {
+				r.notes = append(r.notes, fmt.Sprintf("trecv-%d: %v", idx, err))
+				return
+			}
+		}
+	}
+	select {
+	case <-done:
+	case <-time.After(10 * time.Second):
+		r.notes = append(r.notes, fmt.Sprintf("trecv-%d: the request did not finish", idx))
+		return
+	}
+	for i := 0; i < 3; i++ {
+		if err := barrier(); err != nil {
+			return
+		}
+		time.Sleep(15 * time.Millisecond)
+	}
+	if err := barrier(); err != nil {
+		return
+	}
+	r.ev(map[string]any{"op": "up_quiesce"})
+}
+
 func main() {
 	tracePath, reportPath := os.Args[1], os.Args[2]
 	seed, _ := strconv.ParseInt(os.Getenv("VERIF_SEED"), 10, 64)
@@ -767,6 +902,9 @@ func main() {
 		}
 		for i := 0; i < nt; i++ {
 			transportScenario(r, rng, i)
+		}
+		for i := 0; i < nt; i++ {
+			transportRecvScenario(r, rng, 5000+i)
 		}
 		f.Close()
 		b, _ := json.Marshal(map[string]any{"events": r.n, "transport_scenarios": nt, "notes": r.notes})
